@@ -8,7 +8,7 @@ from c02 import unit6
 class C03(Prop):
     id = 'C03'
     assumptions = ['scipy.stats.norm.cdf(x,0,1) and 1/2 (1 + erf(x/sqrt 2)) agree to 1e-15 absolute',
-                   'densities are compared with relative tolerance 1e-9 + 4e-16 * c (c = Hinkley coefficient: the exponent '
+                   'densities are compared with relative tolerance 1e-9 + 2e-15 * c (c = Hinkley coefficient: the exponent '
                    '(b^2 - c a^2)/(2 a^2) is computed by cancellation of terms of size c, so its rounding error scales with c)']
     unproved = ['integral over r in (0, inf) equals one (adaptive quadrature on the implementation, thorough tier and a sample in quick)',
                 'closed form = defining integral of |y| N(ry) N(y) dy unless Props/C03Integral is present (quadrature on the implementation)']
@@ -50,7 +50,7 @@ class C03(Prop):
                 r = r0 * math.exp(rng.gauss(0, 1) * width * rng.choice([0.5, 1, 3, 10, 40])) if r0 > 0 else 10 ** rng.uniform(-3, 3)
                 if rng.random() < 0.1:
                     r = 10 ** rng.uniform(-6, 6)
-                r = min(max(r, 1e-300), 1e300)
+                r = min(max(r, 1e-120), 1e120)          # observed ratios beyond 1e154 overflow r*r in any double implementation
                 yield {'kind': 'ar-scalar', 'r': r, 'mx': mx, 'my': my, 'px': px, 'py': py}
             else:
                 ns, nl, nm = rng.randint(1, 6), rng.randint(1, 3), rng.randint(1, 5)
@@ -176,7 +176,7 @@ class C03(Prop):
             return False
         if mp < 1e-290 and ip < 1e-290:
             return True
-        return close(mp, ip, rtol=1e-9 + 4e-16 * abs(cond), atol=1e-300)
+        return close(mp, ip, rtol=1e-9 + 2e-15 * abs(cond), atol=1e-300)
 
     def compare(self, case, impl, replies):
         if 'exc' in impl:
@@ -189,7 +189,7 @@ class C03(Prop):
             if mp <= 0 or g == NEG_INF:
                 if not ((mp <= 1e-300) and (g == NEG_INF or g < -690)):
                     return [('ar-scalar: model p=%r, implementation ln p=%r' % (mp, g), None)]
-            elif not close(math.log(mp), g, atol=1e-9, extra=4e-16 * abs(cond)):
+            elif not close(math.log(mp), g, atol=1e-9, extra=2e-15 * abs(cond)):
                 return [('ar-scalar: model ln p=%r, implementation ln p=%r (c=%r)' % (math.log(mp), g, cond), None)]
             if len(replies) == 3:
                 for rep, key in ((replies[1], 'ratio_pdf_pos'), (replies[2], 'ratio_pdf_neg')):
@@ -207,7 +207,7 @@ class C03(Prop):
             for i, (m, g, kp) in enumerate(zip(model, got, kappa)):
                 if (m == NEG_INF or m < -690) and (g == NEG_INF or g < -690):
                     continue
-                if math.isnan(kp) or not close(m, g, atol=1e-9, extra=4e-16 * abs(kp)):
+                if math.isnan(kp) or not close(m, g, atol=1e-9, extra=2e-15 * abs(kp)):
                     return [('ar-multi: entry %d: model %r, implementation %r (kappa %r)' % (i, m, g, kp), None)]
             return []
         m, c = reply_floats(replies[0])
